@@ -12,10 +12,10 @@ cd "$wt"
 res=0
 cp "$demo" tests/seed_demo.rs
 echo "== demo WITHOUT patch" > "$out/verify.log"
-if cargo test --offline --test seed_demo >> "$out/verify.log" 2>&1; then echo "demo_without_patch=pass" | tee -a "$out/verify.log"; else echo "demo_without_patch=FAIL" | tee -a "$out/verify.log"; res=1; fi
+if RUSTFLAGS="--cfg redb_verif" cargo test --offline --features experimental_cursor --test seed_demo >> "$out/verify.log" 2>&1; then echo "demo_without_patch=pass" | tee -a "$out/verify.log"; else echo "demo_without_patch=FAIL" | tee -a "$out/verify.log"; res=1; fi
 if git apply "$patch"; then echo "patch_applies=yes" | tee -a "$out/verify.log"; else echo "patch_applies=NO" | tee -a "$out/verify.log"; res=1; fi
 echo "== demo WITH patch" >> "$out/verify.log"
-if cargo test --offline --test seed_demo >> "$out/verify.log" 2>&1; then echo "demo_with_patch=PASS(unexpected)" | tee -a "$out/verify.log"; res=1; else echo "demo_with_patch=fail(expected)" | tee -a "$out/verify.log"; fi
+if RUSTFLAGS="--cfg redb_verif" cargo test --offline --features experimental_cursor --test seed_demo >> "$out/verify.log" 2>&1; then echo "demo_with_patch=PASS(unexpected)" | tee -a "$out/verify.log"; res=1; else echo "demo_with_patch=fail(expected)" | tee -a "$out/verify.log"; fi
 rm -f tests/seed_demo.rs
 echo "== suite WITH patch" >> "$out/verify.log"
 cargo nextest run -p redb@4.2.0 -p redb-derive -p redb-derive-rename-test --features redb/experimental_cursor --no-fail-fast --tool-config-file pb:/w/lib/nextest.toml --profile pb --test-threads 8 --offline > "$out/suite.log" 2>&1
